@@ -21,8 +21,8 @@
 (***************************************************************************)
 EXTENDS Controls, Json, IOUtils
 
-VARIABLES scn, aux, now, prevT, first, ri, st, pc, rows
-vars == <<scn, aux, now, prevT, first, ri, st, pc, rows>>
+VARIABLES scn, aux, now, prevT, first, ri, st, pc, rows, pauses
+vars == <<scn, aux, now, prevT, first, ri, st, pc, rows, pauses>>
 \* aux = [tl, rorder]: the declarative timeline and the rule order of the scenario, computed once (derived
 \* constants of the behaviour, not state of the algorithm)
 
@@ -109,23 +109,35 @@ Init == /\ scn \in Range(Scenarios)
         /\ now = 0 /\ prevT = -1 /\ first = TRUE
         /\ ri = 1                      \* rules are not evaluated before the first hydraulic solution
         /\ st = scn.init /\ pc = "presolve" /\ rows = <<>>
+        /\ pauses = scn.pauses            \* durations at which run_sim returns and is called again (C10)
 
 Presolve == /\ pc = "presolve"
             /\ LET x == Loop(scn, [now |-> now, ri |-> ri, st |-> st, cnt |-> 1],
                              ToRun(scn, prevT, now, first), st, prevT)
                IN  now' = x.now /\ ri' = x.ri /\ st' = x.st
             /\ pc' = "solve"
-            /\ UNCHANGED <<scn, aux, prevT, first, rows>>
+            /\ UNCHANGED <<scn, aux, prevT, first, rows, pauses>>
 
 \* Solve + Store + PostSolve are environment no-ops in the time family; Accept saves the row and advances
 Accept == /\ pc = "solve"
           /\ rows' = Append(rows, [t |-> now, st |-> st])
           /\ prevT' = now /\ first' = FALSE
           /\ LET n == now + scn.H IN now' = n - (n % scn.H)
-          /\ pc' = IF now' > scn.Dur THEN "done" ELSE "presolve"
-          /\ UNCHANGED <<scn, aux, ri, st>>
+          /\ pc' = IF now' > scn.Dur THEN "done"
+                   ELSE IF pauses # <<>> /\ now' > Head(pauses) THEN "paused" ELSE "presolve"
+          /\ UNCHANGED <<scn, aux, ri, st, pauses>>
 
-Next == Presolve \/ Accept
+\* run_sim returned (duration reached); the model is possibly pickled and a NEW simulator continues with a longer
+\* duration.  Everything that persists lives in the model (now, prevT, st); the simulator's own bookkeeping is
+\* re-initialised: first_step := (sim_time = 0), and the rule index resumes after the last accepted solve.
+NewRun == /\ pc = "paused"
+          /\ pauses' = Tail(pauses)
+          /\ first' = (now = 0)
+          /\ ri' = (prevT \div scn.Rs) + 1
+          /\ pc' = "presolve"
+          /\ UNCHANGED <<scn, aux, now, prevT, st, rows>>
+
+Next == Presolve \/ Accept \/ NewRun
 Spec == Init /\ [][Next]_vars
 
 \* ------------------------------------------------------------------ properties (C04)
